@@ -59,9 +59,16 @@ def nan_case(draw, variant):
         else:
             z = [False] * n
         vals = [None if b else v for v, b in zip(vals, z)]
+        func = draw(st.sampled_from(["sum", "mean", "min", "max", "var", "std", "count"]))
     else:
-        vals = draw(st.lists(st.integers(-10**6, 10**6), min_size=n, max_size=n))
-    func = draw(st.sampled_from(["sum", "mean", "min", "max", "var", "std", "count"]))
+        func = draw(st.sampled_from(["sum", "mean", "min", "max", "var", "std", "count"]))
+        if draw(st.sampled_from([True, False])) and func in ("sum", "min", "max"):
+            # integers that float64 cannot hold exactly (the sum stays inside the dtype)
+            top = (2**62 if dtype == "int64" else 2**30) // (n if func == "sum" else 1)
+            vals = draw(st.lists(st.one_of(st.integers(-top, top), st.sampled_from([top, -top, top - 1, 2**53 + 1 if dtype == "int64" and top > 2**53 else 1])),
+                                 min_size=n, max_size=n))
+        else:
+            vals = draw(st.lists(st.integers(-10**6, 10**6), min_size=n, max_size=n))
     return {"dtype": dtype, "vals": vals, "n_threads": nt, "func": func, "ddof": draw(st.sampled_from([0, 1]))}
 
 
@@ -92,6 +99,11 @@ def nan_check(case, ctx):
             exp = getattr(np, "nan" + func)(arr)
     if isinstance(got, complex) or np.asarray(got).dtype.kind == "c":
         raise Violation(f"nanops:{func}:complex", f"library returned the complex number {got!r} (values {vals})")
+    if dtype.startswith("int") and func in ("sum", "min", "max"):
+        # integer in, exact integer out (NumPy's nan-functions return the integer): no detour through float64
+        if np.asarray(got).dtype.kind not in "iu" or int(got) != int(exp):
+            raise Violation(f"nanops:{func}:int-exact", f"numpy {exp!r} library {got!r} of dtype {np.asarray(got).dtype} (n_threads={nt}, values {vals})")
+        return
     g = None if (isinstance(got, float) or np.asarray(got).dtype.kind == "f") and np.isnan(got) else float(got)
     e = None if np.isnan(exp) else float(exp)
     if func in ("min", "max"):
@@ -140,15 +152,21 @@ def dot_case(draw, variant):
     r, c = draw(st.integers(0, 8)), draw(st.integers(1, 5))
     kind = draw(st.sampled_from(["int", "float", "mixed"]))
     elem = st.integers(-50, 50) if kind == "int" else st.integers(-400, 400).map(lambda k: k / 8)
+    if kind != "int" and draw(st.sampled_from([True, False])):
+        # non-finite entries propagate through the ordinary product, also under a zero coefficient
+        elem = st.one_of(elem, elem, st.sampled_from(["nan", "inf", "-inf"]))
     a = draw(st.lists(st.lists(elem, min_size=c, max_size=c), min_size=r, max_size=r))
     b = draw(st.lists(st.integers(-9, 9) if kind != "float" else st.integers(-64, 64).map(lambda k: k / 8), min_size=c, max_size=c))
     return {"a": a, "b": b, "kind": kind, "container": draw(st.sampled_from(["np", "pd", "pl"]))}
 
 
 def dot_check(case, ctx):
-    a = np.array(case["a"], dtype=float if case["kind"] != "int" else np.int64).reshape(len(case["a"]), len(case["b"]))
+    a = np.array([[float(x) for x in row] for row in case["a"]] if case["kind"] != "int" else case["a"],
+                 dtype=float if case["kind"] != "int" else np.int64).reshape(len(case["a"]), len(case["b"]))
     b = np.array(case["b"], dtype=float if case["kind"] == "float" else np.int64)
-    ctx.seen("nb_dot", case, a.shape[0] >= 2 and a.shape[1] >= 2, [f"dot:{case['container']}", f"dot:{case['kind']}"])
+    nonfinite = case["kind"] != "int" and not np.isfinite(a).all()
+    ctx.seen("nb_dot", case, a.shape[0] >= 2 and a.shape[1] >= 2, [f"dot:{case['container']}", f"dot:{case['kind']}", f"dot:nonfinite:{nonfinite}",
+                                                                   f"dot:zero-weight-on-nonfinite:{bool(nonfinite and (~np.isfinite(a)[:, b == 0]).any())}"])
     if case["container"] == "np":
         obj = a
     elif case["container"] == "pd":
@@ -156,9 +174,11 @@ def dot_check(case, ctx):
     else:
         obj = pl.DataFrame({f"c{i}": a[:, i] for i in range(a.shape[1])})
     got = nb_dot(obj, b)
-    exp = a @ b
+    with warnings.catch_warnings():
+        warnings.simplefilter("ignore")
+        exp = a @ b
     g = np.asarray(got if not isinstance(got, pl.Series) else got.to_numpy(), dtype=float)
-    if g.shape != exp.shape or not np.allclose(g, exp, rtol=0, atol=1e-9):
+    if g.shape != exp.shape or not np.allclose(g, exp, rtol=0, atol=1e-9, equal_nan=True):
         raise Violation(f"nb_dot:{case['container']}", f"a@b = {exp.tolist()} library {g.tolist()}")
     if case["container"] == "pd" and not (isinstance(got, pd.Series) and list(got.index) == list(obj.index)):
         raise Violation("nb_dot:index", "pandas frame in, Series with the frame's index expected")
